@@ -134,3 +134,67 @@ EXTERNS.update({
     writes={'buf': 'braw(msg.g_thrift, msg.g_thrift_len)'},
     notes='scales.thrift.serializer (C14): appends the binary-protocol call for msg; the payload is opaque here'),
 })
+
+# ---------------------------------------------------------------------------- pings, replies, shutdown (C08, C11)
+FUNCTIONS.update({
+  # a ping goes through the send queue like every other frame (the send loop is the only writer)
+  'SocketTransportSink_mux._SendPingMessage': dict(
+    path='SocketTransportSink._SendPingMessage', cls='SocketTransportSink_mux', returns='AsyncResult',
+    requires=['allocated(self._send_queue)'],
+    ensures=['result == self._ping_ar and fresh(result) and not result.g_ready',
+             'self._socket.g_written == old(self._socket.g_written)'],
+    modifies=['SocketTransportSink_mux._ping_ar', 'SocketTransportSink_mux._last_ping_start', 'AsyncResult.g_sets', 'AsyncResult.g_ready',
+              'AsyncResult.exception', 'AsyncResult.value', '$cls'],
+    allocates=True,
+    props=['C08', 'C13'],
+  ),
+  # no successful ping reply within the timeout: the connection is shut down (closed, faulted, in-flight requests failed)
+  'SocketTransportSink_mux._PingTimeoutHelper': dict(
+    path='SocketTransportSink._PingTimeoutHelper', cls='SocketTransportSink_mux', conc='Mux', guar=[],
+    locals={'ar': 'AsyncResult?'},
+    requires=['MuxInv(self)', 'allocated(self._on_faulted) and allocated(self._socket)', 'self._ping_ar is not None'],
+    ensures=['MuxInv(self)'],
+    modifies=['*'], allocates=True,
+    yields=[{'at': 'ar.wait(self._ping_timeout)', 'rely': ['allocated(self._on_faulted) and allocated(self._socket)', 'allocated(ar)']}],
+    ghost=[
+      {'before': "self._Shutdown('Ping Timeout')", 'do': ['prove(not (ar.g_ready and ar.exception is None), "shutdown-only-without-a-successful-ping-reply")', 'g_shut = True']},
+    ],
+    props=['C08'],
+  ),
+  'SocketTransportSink_mux._OnPingResponse': dict(
+    path='SocketTransportSink._OnPingResponse', cls='SocketTransportSink_mux', params={'msg_type': 'int', 'stream': 'Stream'},
+    locals={'ar': 'AsyncResult?'},
+    requires=['self._ping_ar is not None'],
+    ensures=['self._ping_ar is None',
+             'implies(msg_type == -65, old(self._ping_ar).g_ready and old(self._ping_ar).exception is None)',
+             'implies(msg_type != -65, old(self._ping_ar).g_ready and old(self._ping_ar).exception is not None)'],
+    modifies=['SocketTransportSink_mux._ping_ar', 'AsyncResult.g_sets', 'AsyncResult.g_ready', 'AsyncResult.exception', 'AsyncResult.value', '$cls'],
+    allocates=True,
+    props=['C08'],
+  ),
+  # replies are routed by the tag read from the header; tag 0 and stray frames on the ping tag reach nobody
+  'SocketTransportSink_mux._ProcessReply': dict(
+    path='SocketTransportSink._ProcessReply', cls='SocketTransportSink_mux', params={'stream': 'Stream'},
+    inline_calls=['ThriftMuxMessageSerializerSink.ReadHeader'],
+    captures={'g_t': 'int', 'g_tag': 'int', 'g_rest': 'int', 'g_restlen': 'int'},
+    buffers={'stream': 'bcat(bi8(g_t), bu24(g_tag), braw(g_rest, g_restlen))'},
+    requires=['-128 <= g_t and g_t <= 127', '0 <= g_tag and g_tag < 16777216', 'g_restlen >= 0', 'MuxInv(self)',
+              'implies(g_tag == 1 and g_t == -65, self._ping_ar is not None)'],
+    ensures=['MuxInv(self)',
+             # whatever the peer sends, only the tag it names can be released -- and only if it awaits an answer
+             'forall(t, "int", implies(t != g_tag, (t in self._tag_map) == old(t in self._tag_map)))',
+             'implies(not old(g_tag in self._tag_map), unchanged("set[int]") and unchanged("TagPool._next"))'],
+    modifies=['dict[int,tuple[ClientMessageSinkStack,real,Props]]', 'set[int]', 'deque[tuple[AnySink,any]]', 'AnySink.g_invoked', 'Props.tag', 'Props.has_tag',
+              'SocketTransportSink_mux._ping_ar', 'AsyncResult.g_sets', 'AsyncResult.g_ready', 'AsyncResult.exception', 'AsyncResult.value', '$cls'],
+    allocates=True,
+    ghost=[
+      {'before': 'self._ProcessTaggedReply(tag, stream)', 'do': ['prove(tag == g_tag and tag != 0, "routed-by-the-tag-in-the-header")']},
+      {'before': 'self._OnPingResponse(msg_type, stream)', 'do': ['prove(g_tag == 1 and g_t == -65, "only-an-Rping-on-tag-1-is-a-ping-reply")']},
+    ],
+    props=['C11', 'C02', 'C08'],
+  ),
+})
+
+EXTERNS.update({
+  'AsyncResult.wait': dict(params=[('timeout', 'real?')], yields=True, returns='bool', notes='blocks the calling greenlet (gevent)'),
+})
